@@ -3,7 +3,6 @@
 expected to catch it (quick tier, VERIF_REPO pointing at the worktree), record the verdict in seeded/MATRIX.md, revert."""
 import json, os, subprocess, sys, glob, time
 V = os.path.dirname(os.path.dirname(os.path.abspath(__file__)))
-WT = "/tmp/wt/my"
 OVERRIDE = {"C01-B": "C11", "C06-B": "C11"}
 
 
@@ -11,33 +10,58 @@ def sh(cmd, **kw):
     return subprocess.run(cmd, shell=True, capture_output=True, text=True, **kw)
 
 
+def one(job):
+    slot, d, head = job
+    wt = f"/tmp/wt/m{slot}"
+    if not os.path.isdir(wt):
+        sh(f"git -C /repo worktree add --detach {wt} HEAD")
+    sh(f"git -C {wt} checkout -q --detach {head}; git -C {wt} checkout -q -- .; git -C {wt} clean -fdq")
+    sid = os.path.basename(d)
+    pid = OVERRIDE.get(sid, sid.split("-")[0])
+    r = sh(f"git -C {wt} apply {d}/patch.diff")
+    if r.returncode != 0:
+        return (sid, pid, "PATCH-DOES-NOT-APPLY", "", 0)
+    t0 = time.time()
+    env = dict(os.environ, VERIF_REPO=wt)
+    r = subprocess.run(["./check", pid, "--tier", "quick"], cwd=V, env=env, capture_output=True, text=True)
+    sigs = [l.strip()[11:] for l in r.stdout.splitlines() if l.strip().startswith("signature:")]
+    verdict = "DETECTED" if (r.returncode == 1 and "VIOLATION property=" in r.stdout) else f"MISSED(rc={r.returncode})"
+    row = (sid, pid, verdict, sigs[0][:150] if sigs else "", round(time.time() - t0))
+    sh(f"git -C {wt} checkout -q -- .; git -C {wt} clean -fdq")
+    print(row, flush=True)
+    m = json.load(open(f"{d}/meta.json"))
+    m["last_matrix_run"] = {"repo_head": head[:7], "check": pid, "verdict": verdict, "first_signature": sigs[0] if sigs else None}
+    json.dump(m, open(f"{d}/meta.json", "w"), indent=1)
+    return row
+
+
 def main():
-    only = set(sys.argv[1:])
-    if not os.path.isdir(WT):
-        sh(f"git -C /repo worktree add --detach {WT} HEAD")
+    import queue
+    import threading
+
+    only = set(a for a in sys.argv[1:] if not a.startswith("-j"))
+    par = int(([a[2:] for a in sys.argv[1:] if a.startswith("-j")] or ["3"])[0])
     head = sh("git -C /repo rev-parse HEAD").stdout.strip()
-    sh(f"git -C {WT} checkout -q --detach {head}; git -C {WT} checkout -q -- .; git -C {WT} clean -fdq")
+    dirs = [d for d in sorted(glob.glob(os.path.join(V, "seeded", "C*-*"))) if not only or os.path.basename(d) in only]
+    q = queue.Queue()
+    for d in dirs:
+        q.put(d)
     rows = []
-    for d in sorted(glob.glob(os.path.join(V, "seeded", "C*-*"))):
-        sid = os.path.basename(d)
-        if only and sid not in only:
-            continue
-        pid = OVERRIDE.get(sid, sid.split("-")[0])
-        r = sh(f"git -C {WT} apply {d}/patch.diff")
-        if r.returncode != 0:
-            rows.append((sid, pid, "PATCH-DOES-NOT-APPLY", "", 0))
-            continue
-        t0 = time.time()
-        env = dict(os.environ, VERIF_REPO=WT)
-        r = subprocess.run(["./check", pid, "--tier", "quick"], cwd=V, env=env, capture_output=True, text=True)
-        sigs = [l.strip()[11:] for l in r.stdout.splitlines() if l.strip().startswith("signature:")]
-        verdict = "DETECTED" if (r.returncode == 1 and "VIOLATION property=" in r.stdout) else f"MISSED(rc={r.returncode})"
-        rows.append((sid, pid, verdict, sigs[0][:150] if sigs else "", round(time.time() - t0)))
-        sh(f"git -C {WT} checkout -q -- .; git -C {WT} clean -fdq")
-        print(rows[-1], flush=True)
-        m = json.load(open(f"{d}/meta.json"))
-        m["last_matrix_run"] = {"repo_head": head[:7], "check": pid, "verdict": verdict, "first_signature": sigs[0] if sigs else None}
-        json.dump(m, open(f"{d}/meta.json", "w"), indent=1)
+
+    def lane(slot):
+        while True:
+            try:
+                d = q.get_nowait()
+            except queue.Empty:
+                return
+            rows.append(one((slot, d, head)))
+
+    ts = [threading.Thread(target=lane, args=(i,)) for i in range(par)]
+    [t.start() for t in ts]
+    [t.join() for t in ts]
+    rows.sort()
+    for i in range(par):
+        sh(f"git -C /repo worktree remove --force /tmp/wt/m{i}")
     with open(os.path.join(V, "seeded", "MATRIX.md"), "w") as f:
         f.write(f"# Seeded changes vs checks (quick tier), /repo HEAD {head[:7]}\n\n| seeded change | check | verdict | first new signature | s |\n|---|---|---|---|---|\n")
         for row in rows:
